@@ -126,6 +126,25 @@ type c01Ctl struct {
 	ErrCode            int32
 	ErrMsg             string
 	EmptyOuts          bool
+	Big                int
+}
+
+// c01Inflate gives a string / byte vector value exactly n bytes (packets larger than the transports' read buffers)
+func c01Inflate(rng *rand.Rand, v reflect.Value, n int) {
+	b := make([]byte, n)
+	rng.Read(b)
+	switch {
+	case v.Kind() == reflect.String:
+		v.SetString(string(b))
+	case v.Kind() == reflect.Slice && v.Type().Elem().Kind() == reflect.Uint8:
+		v.SetBytes(b)
+	case v.Kind() == reflect.Slice && v.Type().Elem().Kind() == reflect.Int8:
+		x := make([]int8, n)
+		for i := range b {
+			x[i] = int8(b[i])
+		}
+		v.Set(reflect.ValueOf(x))
+	}
 }
 
 type c01Plan struct {
@@ -168,12 +187,18 @@ func c01MakePlan(f *c01Fn, key string, ctl c01Ctl) c01Plan {
 	if f.retT != nil {
 		p.ret = reflect.New(f.retT).Elem()
 		fillRandom(rng, p.ret, 3)
+		if ctl.Big > 0 {
+			c01Inflate(rng, p.ret, ctl.Big)
+		}
 	}
 	for i, t := range f.argT {
 		if f.Dirs[i] == 'o' {
 			v := reflect.New(t).Elem()
 			if !ctl.EmptyOuts {
 				fillRandom(rng, v, 3)
+				if ctl.Big > 0 {
+					c01Inflate(rng, v, ctl.Big+1)
+				}
 			}
 			p.outs = append(p.outs, v)
 		}
@@ -228,8 +253,25 @@ func c01Emit(id int32, s string) {
 // ---------- the implementation of the generated servant interface ----------
 type c01Imp struct{}
 
+// ---------- high-contention burst: many goroutines, many small calls, unique payloads, one proxy ----------
+const c01BurstBase = int32(1 << 24)
+const c01BurstKey = int32(0x5a5a5a5a)
+
+var (
+	c01BurstOn     int32
+	c01BurstCounts []int32 // invocations of the implementation per payload
+)
+
 func c01Serve(ctx context.Context, fn string, ins []interface{}, outs []interface{}, ret interface{}) error {
 	atomic.AddInt64(&c01ImplRuns, 1)
+	if atomic.LoadInt32(&c01BurstOn) != 0 && fn == "fInt" {
+		if a, ok := ins[0].(int32); ok && a >= c01BurstBase && int(a-c01BurstBase) < len(c01BurstCounts) {
+			atomic.AddInt32(&c01BurstCounts[a-c01BurstBase], 1)
+			*(outs[0].(*int32)) = ^a
+			*(ret.(*int32)) = a ^ c01BurstKey
+			return nil
+		}
+	}
 	f := c01FnByName[fn]
 	vs := make([]reflect.Value, len(ins))
 	for i, x := range ins {
@@ -754,6 +796,9 @@ func c01Prepare(proxy *e2e.E2E, k *c01Call) *c01Prepared {
 		v := reflect.New(t) // pointer to a fresh variable
 		if f.Dirs[i] == 'i' || k.Prior {
 			fillRandom(rng, v.Elem(), 3)
+			if f.Dirs[i] == 'i' && k.Big > 0 {
+				c01Inflate(rng, v.Elem(), k.Big+2)
+			}
 		}
 		if f.Dirs[i] == 'o' && k.DeepPrior > 0 && t == reflect.TypeOf(e2e.Node{}) {
 			v.Elem().Set(reflect.ValueOf(c01Chain(k.DeepPrior)))
@@ -779,7 +824,7 @@ func c01Prepare(proxy *e2e.E2E, k *c01Call) *c01Prepared {
 		p.opts = append(p.opts, p.stMap)
 	}
 	p.key = c01Key(f.Name, p.ins, p.ctxMap, p.stMap)
-	ctl := c01Ctl{RCtx: k.RCtx, RSt: k.RSt, ErrKind: k.ErrKind, ErrCode: k.ErrCode, ErrMsg: string(k.ErrMsg), EmptyOuts: k.EmptyOuts}
+	ctl := c01Ctl{RCtx: k.RCtx, RSt: k.RSt, ErrKind: k.ErrKind, ErrCode: k.ErrCode, ErrMsg: string(k.ErrMsg), EmptyOuts: k.EmptyOuts, Big: k.Big}
 	c01Mu.Lock()
 	if old, ok := c01Ctls[p.key]; ok {
 		ctl = old // two callers passing identical inputs get the identical behaviour
@@ -1085,6 +1130,78 @@ func c01Probe(proxy *e2e.E2E) error {
 	return nil
 }
 
+// c01RunBurst: g goroutines make n calls each of fInt(a, out o) with a payload no other call uses; every caller must
+// get the answer to its own payload (a reply routed to another caller, a lost reply, an implementation invoked twice
+// or never all show up), and the relay must have seen every request id once.
+func c01RunBurst(proxy *e2e.E2E, g, n int) (fails []string) {
+	if runtime.GOMAXPROCS(0) < 4 {
+		runtime.GOMAXPROCS(4)
+	}
+	c01BurstCounts = make([]int32, g*n)
+	atomic.StoreInt32(&c01BurstOn, 1)
+	defer atomic.StoreInt32(&c01BurstOn, 0)
+	proxy.TarsSetTimeout(2000)
+	defer proxy.TarsSetTimeout(20000)
+	var mu sync.Mutex
+	var wrong, lost, failed int
+	first := ""
+	note := func(kind *int, format string, a ...interface{}) {
+		mu.Lock()
+		*kind++
+		if first == "" {
+			first = fmt.Sprintf(format, a...)
+		}
+		mu.Unlock()
+	}
+	var wg sync.WaitGroup
+	start := make(chan struct{})
+	for gi := 0; gi < g; gi++ {
+		wg.Add(1)
+		go func(gi int) {
+			defer wg.Done()
+			<-start
+			for i := 0; i < n; i++ {
+				a := c01BurstBase + int32(gi*n+i)
+				var o int32
+				r, err := proxy.FIntWithContext(context.Background(), a, &o)
+				switch {
+				case err != nil && strings.Contains(err.Error(), "timeout"):
+					note(&lost, "caller %d call %d (payload %d): no reply: %v", gi, i, a, err)
+				case err != nil:
+					note(&failed, "caller %d call %d (payload %d): error %v", gi, i, a, err)
+				case r != a^c01BurstKey || o != ^a:
+					note(&wrong, "caller %d call %d (payload %d): got return %d out %d, the answer to payload %d", gi, i, a, r, o, r^c01BurstKey)
+				}
+			}
+		}(gi)
+	}
+	close(start)
+	wg.Wait()
+	time.Sleep(20 * time.Millisecond)
+	if wrong > 0 {
+		fails = append(fails, fmt.Sprintf("e2e/concurrent-burst/reply-of-another-call\x00%d of %d calls (%d callers x %d) returned the answer to another caller's payload; first: %s", wrong, g*n, g, n, first))
+	}
+	if lost > 0 {
+		fails = append(fails, fmt.Sprintf("e2e/concurrent-burst/call-lost\x00%d of %d calls (%d callers x %d) got no reply; first: %s", lost, g*n, g, n, first))
+	}
+	if failed > 0 {
+		fails = append(fails, fmt.Sprintf("e2e/concurrent-burst/spurious-error\x00%d of %d calls (%d callers x %d) failed; first: %s", failed, g*n, g, n, first))
+	}
+	twice, never := 0, 0
+	for i := range c01BurstCounts {
+		switch c := atomic.LoadInt32(&c01BurstCounts[i]); {
+		case c == 0:
+			never++
+		case c > 1:
+			twice++
+		}
+	}
+	if twice > 0 || (never > 0 && lost == 0 && failed == 0) {
+		fails = append(fails, fmt.Sprintf("e2e/concurrent-burst/invocations\x00the implementation ran more than once for %d payloads and never for %d of %d", twice, never, g*n))
+	}
+	return fails
+}
+
 func c01ChildMain(inPath, outPath string) {
 	c01InitFns()
 	b, err := os.ReadFile(inPath)
@@ -1118,12 +1235,25 @@ func c01ChildMain(inPath, outPath string) {
 	go c01Watchdog()
 	out := c01ChildOut{Failures: []Failure{}, Stats: map[string]int{}}
 	expectSeen := map[string]int{}
+	burstCalls := 0
 	addFail := func(ci int, sig, desc string) {
 		out.Failures = append(out.Failures, Failure{Sig: sig, Desc: desc, Replay: map[string]interface{}{"case_index": ci}})
 	}
 	for ci := range cases {
 		cs := &cases[ci]
 		atomic.StoreInt64(&c01CaseStart, time.Now().UnixNano())
+		if cs.Burst != nil {
+			t0 := time.Now()
+			for _, f := range c01RunBurst(proxy, cs.Burst.G, cs.Burst.N) {
+				parts := strings.SplitN(f, "\x00", 2)
+				addFail(ci, parts[0], parts[1])
+				cs.Burst.Fails = append(cs.Burst.Fails, parts[0]+": "+parts[1])
+			}
+			cs.Burst.Ms = float64(time.Since(t0).Milliseconds())
+			burstCalls += cs.Burst.G * cs.Burst.N
+			out.Cases = append(out.Cases, *cs)
+			continue
+		}
 		c01Mu.Lock()
 		c01Ctls = map[string]c01Ctl{} // the server is quiescent between batches
 		c01Mu.Unlock()
@@ -1232,6 +1362,9 @@ func c01ChildMain(inPath, outPath string) {
 			for j := range k.Fails {
 				k.Fails[j] = strings.Replace(k.Fails[j], "\x00", ": ", 1)
 			}
+			if k.NoModel { // too large for the model evaluation: monitors only
+				k.Sig, k.Args, k.Ins, k.Plan, k.Res = "", "", "", "", ""
+			}
 		}
 		// filter / implementation event order
 		if len(preps) == 1 {
@@ -1323,7 +1456,7 @@ func c01ChildMain(inPath, outPath string) {
 			addFail(len(cases)-1, "e2e/request-id/reused", fmt.Sprintf("request id %d was used by %d requests of this run", id, n))
 		}
 	}
-	total := 0
+	total := burstCalls
 	for _, c := range cases {
 		total += len(c.Calls)
 	}
